@@ -60,6 +60,8 @@ First(seq) ==
 InDef   == mode = "def"
 InData  == mode \in {"coll", "indep"}
 
+RoDef == {"NC_EPERM", "NC_ENOTINDEFINE"}
+
 (* the set of acceptable return codes of call c in the current state *)
 Allowed(c) ==
     CASE c.c = "enddef"      -> {First(<< <<~InDef, "NC_ENOTINDEFINE">> >>)}
@@ -67,14 +69,21 @@ Allowed(c) ==
       [] c.c = "begin_indep" -> {First(<< <<InDef, "NC_EINDEFINE">> >>)}
       [] c.c = "end_indep"   -> {First(<< <<InDef, "NC_EINDEFINE">> >>)}
       [] c.c = "close"       -> {IF pend # {} THEN "NC_EPENDING" ELSE "NC_NOERR"}
-      [] c.c = "abort"       -> {"NC_NOERR"}
-      [] c.c = "def_dim"     -> {First(<< <<ro, "NC_EPERM">>, <<~InDef, "NC_ENOTINDEFINE">>, <<xdim, "NC_ENAMEINUSE">> >>)}
-      [] c.c = "def_var"     -> {First(<< <<ro, "NC_EPERM">>, <<~InDef, "NC_ENOTINDEFINE">>, <<xvar, "NC_ENAMEINUSE">> >>)}
+      \* the documentation does not say whether abort reports the requests it cancels
+      [] c.c = "abort"       -> IF pend # {} THEN {"NC_NOERR", "NC_EPENDING"} ELSE {"NC_NOERR"}
+      \* A precedence between NC_EPERM and NC_ENOTINDEFINE is documented only for the put-attribute calls
+      \* (DEVELOPER_NOTES "NC error code precedence").  A read-only file is never in define mode, so for the
+      \* other define-mode calls both codes are true of the state and either is accepted (RoDef).
+      [] c.c = "def_dim"     -> IF ro THEN RoDef ELSE {First(<< <<~InDef, "NC_ENOTINDEFINE">>, <<xdim, "NC_ENAMEINUSE">> >>)}
+      [] c.c = "def_var"     -> IF ro THEN RoDef ELSE {First(<< <<~InDef, "NC_ENOTINDEFINE">>, <<xvar, "NC_ENAMEINUSE">> >>)}
       [] c.c = "put_att_new" -> {First(<< <<ro, "NC_EPERM">>, <<~InDef /\ ~xatt, "NC_ENOTINDEFINE">> >>)}
       [] c.c = "put_att_same"-> {First(<< <<ro, "NC_EPERM">>, <<~InDef /\ ~ga, "NC_ENOTINDEFINE">> >>)}
-      [] c.c = "del_att"     -> {First(<< <<ro, "NC_EPERM">>, <<~InDef, "NC_ENOTINDEFINE">>, <<~ga, "NC_ENOTATT">> >>)}
-      [] c.c = "set_fill"    -> {First(<< <<ro, "NC_EPERM">>, <<~InDef, "NC_ENOTINDEFINE">> >>)}
-      [] c.c = "def_var_fill"-> {First(<< <<ro, "NC_EPERM">>, <<~InDef, "NC_ENOTINDEFINE">> >>)}
+      [] c.c = "del_att"     -> IF ro THEN RoDef ELSE {First(<< <<~InDef, "NC_ENOTINDEFINE">>, <<~ga, "NC_ENOTATT">> >>)}
+      [] c.c = "set_fill"    -> IF ro THEN RoDef ELSE {First(<< <<~InDef, "NC_ENOTINDEFINE">> >>)}
+      \* no precedence is documented for this call: on a read-only file (never in define mode) both
+      \* errors are true of the state
+      [] c.c = "def_var_fill"-> IF ro THEN RoDef
+                                ELSE {First(<< <<~InDef, "NC_ENOTINDEFINE">> >>)}
       [] c.c = "rename_var"  -> {First(<< <<ro, "NC_EPERM">>, <<c.n = vname, "NC_ENAMEINUSE">>,
                                           <<~InDef /\ NameLen(c.n) > NameLen(vname), "NC_ENOTINDEFINE">> >>)}
       [] c.c = "put"         -> {First(<< <<ro, "NC_EPERM">>, <<InDef, "NC_EINDEFINE">>,
@@ -91,7 +100,8 @@ Allowed(c) ==
                                           <<c.m = "indep" /\ mode = "coll", "NC_ENOTINDEP">> >>)}
       [] c.c = "cancel"      -> {"NC_NOERR"}
       [] c.c = "sync"        -> {First(<< <<InDef, "NC_EINDEFINE">> >>)}
-      [] c.c = "sync_numrecs"-> {First(<< <<InDef, "NC_EINDEFINE">> >>)}
+      \* the documentation is silent on sync_numrecs for a read-only file: success or NC_EPERM
+      [] c.c = "sync_numrecs"-> IF ro THEN {"NC_NOERR", "NC_EPERM"} ELSE {First(<< <<InDef, "NC_EINDEFINE">> >>)}
       \* the documentation is silent on flush in define mode: success or the true-of-the-state error
       [] c.c = "flush"       -> IF InDef THEN {"NC_NOERR", "NC_EINDEFINE"} ELSE {"NC_NOERR"}
       [] c.c = "fill_var_rec"-> {First(<< <<ro, "NC_EPERM">>, <<InDef, "NC_EINDEFINE">>, <<mode = "indep", "NC_EINDEP">> >>)}
